@@ -9,6 +9,7 @@ import TrompModel.Gen.Cxx.TraceAgentDtor
 import TrompModel.Gen.Cxx.TraceParams
 import TrompModel.Gen.Cxx.TraceReturn
 import TrompModel.Gen.Cxx.TraceException
+import TrompModel.Gen.Cxx.StreamTracerTrace
 import TrompModel.Tie.Base
 
 namespace Tromp.Tie
@@ -47,5 +48,9 @@ theorem trace_record_tie (t : Bool) (e : CallEnd) :
                   match e with | .returned => TTok.result | .threwStd => TTok.stdException | .threwOther => TTok.unknownException], true)
       else ([], false) := by
   cases t <;> cases e <;> rfl
+
+/-- the shipped `stream_tracer` writes one record as: the location, a newline, the text `trace_agent` built, a newline —
+    nothing added, nothing left out, one write per record. -/
+theorem stream_tracer_record : Cxx.stream_tracer_trace = ["location{file, line}", "newline", "call", "newline"] := rfl
 
 end Tromp.Tie
